@@ -203,8 +203,14 @@ def random_content(rng, regs):
 def random_case(rng):
     regs = random_regs(rng)
     content = random_content(rng, regs)
+    io = None
+    if rng.random() < 0.15 and content:
+        for _ in range(rng.randrange(1, 4)):  # lone carriage returns (in memory only "\n" ends a line)
+            i = rng.randrange(len(content))
+            content = content[:i] + "\r" + content[i:]
+    else:
+        io = fsup.io_of(rng, [content])
     case = {"regs": regs, "content": codec.enc_str(content)}
-    io = fsup.io_of(rng, [content])
     if io:
         case["io"] = io  # the content is read from a path on disk, in the class's declared encoding
     return case
